@@ -12,6 +12,7 @@ import json
 import os
 import random
 import re
+import signal
 import sys
 import zlib
 
@@ -174,6 +175,31 @@ def _lean_str(s):
 TABLE_MTIMES = (0x01020304, 2 ** 32 + 5)
 
 
+class _Hang(BaseException):
+    """raised by the interval timer inside a call into the code under test (BaseException: an `except Exception`
+    in the code under test must not swallow it)"""
+
+
+def _on_alarm(signum, frame):
+    raise _Hang()
+
+
+class time_limit(object):
+    """`with time_limit(s):` - the block raises _Hang when it takes longer (main thread of the process only)"""
+
+    def __init__(self, seconds):
+        self.seconds = seconds
+
+    def __enter__(self):
+        self.old = signal.signal(signal.SIGALRM, _on_alarm)
+        signal.setitimer(signal.ITIMER_REAL, self.seconds)
+
+    def __exit__(self, *exc):
+        signal.setitimer(signal.ITIMER_REAL, 0)
+        signal.signal(signal.SIGALRM, self.old)
+        return False
+
+
 def _header_rows():
     """the first ten bytes of what the live compress() yields, for every level and two MTIMEs (one >= 2^32);
     a call that fails gives an empty row (the table theorem then fails to build: the proof side is broken)"""
@@ -183,9 +209,10 @@ def _header_rows():
         for mtime in TABLE_MTIMES:
             _FakeTime.now = mtime
             try:
-                member = b''.join(encoding.compress(iter([b'abc']), level))
+                with time_limit(5):     # runs under the build lock: a compress() that hangs must not hold it
+                    member = b''.join(encoding.compress(iter([b'abc']), level))
                 hdr = bytes(member[:10])
-            except Exception:
+            except (Exception, _Hang):
                 hdr = b''
             rows.append((level, mtime, hdr))
     return rows
@@ -1547,7 +1574,25 @@ def virtual_size_probe(ctx, rng):
 # ----------------------------------------------------------------------------------------------
 # batch evaluation (module level so that worker processes can run it)
 # ----------------------------------------------------------------------------------------------
+CASE_TIME_LIMIT = 30.0
+MAX_HANGS = 2                   # cases without an answer before the run stops generating (each costs the limit)
+
+
+
+
 def eval_case(case):
+    """eval_case_unguarded under a time limit: a call into the code under test that does not come back is an
+    observation (the statement promises a response), not a hang of the harness"""
+    try:
+        with time_limit(CASE_TIME_LIMIT):
+            return eval_case_unguarded(case)
+    except _Hang:
+        case.pop('_chunks', None)
+        return {'case': case, 'lines': [], 'hist': ['hang'], 'nontrivial': True, 'impl': None,
+                'fails': [('no answer within %d s' % CASE_TIME_LIMIT, '%s:hang' % case.get('t'))]}
+
+
+def eval_case_unguarded(case):
     """Run one case on the real code + oracle.  Returns a small record; no ctx access (worker safe)."""
     t = case['t']
     rec = {'case': case, 'fails': [], 'lines': [], 'hist': []}
@@ -1642,6 +1687,8 @@ def settle(ctx, recs, compare=True):
     lines, pending = [], []
     for rec in recs:
         case = rec['case']
+        if 'hang' in rec['hist']:
+            ctx.extra['hangs'] = ctx.extra.get('hangs', 0) + 1
         ctx.case(case, nontrivial=rec.get('nontrivial', True))
         for k in rec['hist']:
             ctx.count(k)
@@ -1738,10 +1785,14 @@ def _worker(args):
     cases = gen_stream(rng, *counts)
     cov = c17_cov.start()
     out = []
+    hangs = 0
     try:
         for c in cases:
             rec = eval_case(c)
             out.append(rec)
+            hangs += 'hang' in rec['hist']
+            if hangs >= MAX_HANGS:
+                break
     finally:
         c17_cov.stop()
     return out, cov.hits()
@@ -1770,7 +1821,13 @@ def run(ctx):
         virtual_size_probe(ctx, ctx.rng)
         if ctx.quick():
             cases = gen_stream(ctx.rng, 4000, 4000, 5000, 600, 600, 24, 2500, 3000)
-            settle(ctx, [eval_case(c) for c in cases])
+            recs = []
+            for c in cases:
+                rec = eval_case(c)
+                recs.append(rec)
+                if 'hang' in rec['hist'] and sum('hang' in r['hist'] for r in recs) >= MAX_HANGS:
+                    break
+            settle(ctx, recs)
         else:
             c17_cov.stop()              # the forked workers install their own monitor
             jobs = [(ctx.rng.getrandbits(48), (2500, 2500, 2500, 300, 300, 6, 1500, 1500)) for _ in range(80)]
@@ -1778,6 +1835,8 @@ def run(ctx):
                 for recs, hits in common.parallel_map(_worker, jobs[i:i + 16]):
                     cov.add_hits(hits)
                     settle(ctx, recs)
+                if ctx.extra.get('hangs', 0) >= MAX_HANGS:
+                    break
     finally:
         c17_cov.stop()
     cov.report(ctx)
@@ -1789,6 +1848,8 @@ def search(ctx, around=None):
     t = (around or {}).get('t')
     plans = [kinds[t]] if t in kinds else []
     plans.append((4000, 4000, 0, 0, 200, 4, 3000, 0))
+    if ctx.extra.get('hangs', 0) >= MAX_HANGS:
+        return              # the failing inputs are on record; every further one costs the time limit
     for counts in plans:
         jobs = [(ctx.rng.getrandbits(48), tuple(max(0, c // 8) for c in counts)) for _ in range(8)]
         for recs, _hits in common.parallel_map(_worker, jobs, procs=8):
